@@ -50,8 +50,9 @@ func (it *r2Item) String() string {
 type r2Order struct {
 	c       *Ctx
 	roles   *vmCompilerRoles
-	effects map[string]vmEffect
-	lenient bool // locating an argument loop only: conditional / non-literal single pushes are skipped
+	pushOps map[*types.Const]bool // opcodes whose VM clause nets exactly one push on every path
+	lenient bool                  // locating an argument loop only: conditional / non-literal single pushes are skipped
+	depth   int
 }
 
 func (x *r2Order) emits(fn *vmFn, n ast.Node) bool {
@@ -95,8 +96,7 @@ func (x *r2Order) single(fn *vmFn, s ast.Stmt) *r2Item {
 		if op == nil {
 			return nil
 		}
-		eff, ok := x.effects[op.Name()]
-		if !ok || !eff.ok || eff.delta != 1 || eff.loopPop != 0 {
+		if !x.pushOps[op] {
 			return nil
 		}
 		for _, a := range ctor.Args {
@@ -142,6 +142,59 @@ func (x *r2Order) classify(fn *vmFn, s ast.Stmt) (item *r2Item, skip bool) {
 	if it := x.single(fn, s); it != nil {
 		return it, false
 	}
+	// a helper that consists of one push loop over one of its parameters (the argument loop
+	// extracted into a function): the loop, with the parameter replaced by the argument
+	if es, ok := s.(*ast.ExprStmt); ok {
+		if call, ok := ast.Unparen(es.X).(*ast.CallExpr); ok {
+			if g := CalleeOf(fn.info, call); g != nil && g != x.roles.insert && x.roles.byObj[g] != nil && x.depth < 2 {
+				gfn := x.roles.byObj[g]
+				var only *r2Item
+				var singles []*r2Item
+				nEmit := 0
+				x.depth++
+				for _, b := range gfn.fd.Body.List {
+					if !x.emits(gfn, b) {
+						continue
+					}
+					nEmit++
+					if it, _ := x.classify(gfn, b); it != nil && it.kind == r2ItSeg {
+						only = it
+					} else if it != nil {
+						singles = append(singles, it)
+					}
+				}
+				x.depth--
+				// a helper that only pushes single operands (the argument count)
+				if nEmit > 0 && len(singles) == nEmit {
+					if nEmit == 1 {
+						return singles[0], false
+					}
+					if x.lenient {
+						return nil, true
+					}
+				}
+				if nEmit == 1 && only != nil {
+					// map the parameter the loop ranges over to the actual argument
+					root := vmRootOf(only.loop.coll)
+					if id, ok := root.(*ast.Ident); ok {
+						po := vmObjOf(gfn.info, id)
+						idx := 0
+						for _, fl := range gfn.fd.Type.Params.List {
+							for _, nm := range fl.Names {
+								if gfn.info.Defs[nm] == po && idx < len(call.Args) {
+									l2 := *only.loop
+									l2.coll = r2Subst(only.loop.coll, id, call.Args[idx])
+									return &r2Item{kind: r2ItSeg, loop: &l2, inner: only.inner, src: only.src, fn: fn, pos: s.Pos()}, false
+								}
+								idx++
+							}
+						}
+					}
+					return only, false
+				}
+			}
+		}
+	}
 	switch y := s.(type) {
 	case *ast.IfStmt:
 		// `if c { …; return }` without else: on the path that continues behind it the
@@ -155,7 +208,10 @@ func (x *r2Order) classify(fn *vmFn, s ast.Stmt) (item *r2Item, skip bool) {
 				// conditional extra operands (the argc of a spawn): irrelevant for locating the argument loop
 				only := true
 				for _, b := range y.Body.List {
-					if x.emits(fn, b) && x.single(fn, b) == nil {
+					if !x.emits(fn, b) {
+						continue
+					}
+					if it, skip := x.classify(fn, b); !skip && (it == nil || it.kind == r2ItSeg) {
 						only = false
 					}
 				}
@@ -402,9 +458,36 @@ func r2GatherDir(info *types.Info, body *ast.BlockStmt, mentions func(e ast.Expr
 func (x *r2Order) hostClauses() (fn *vmFn, out map[string]*r2HostClause) {
 	c := x.c
 	rt := c.Pkg("homescript/runtime")
-	hf := vmStructField(rt, "Core", "hostCall")
+	// the host-call hook of a core, by role: the func-typed field of Core whose signature takes a
+	// name (string) and the popped operands ([]*Value)
+	var hf *types.Var
+	if obj := rt.Types.Scope().Lookup("Core"); obj != nil {
+		if st, ok := obj.Type().Underlying().(*types.Struct); ok {
+			for i := 0; i < st.NumFields(); i++ {
+				sig, ok := st.Field(i).Type().Underlying().(*types.Signature)
+				if !ok {
+					continue
+				}
+				hasName, hasArgs := false, false
+				for j := 0; j < sig.Params().Len(); j++ {
+					t := sig.Params().At(j).Type()
+					if types.Identical(t, types.Typ[types.String]) {
+						hasName = true
+					}
+					if sl, ok := t.Underlying().(*types.Slice); ok {
+						if pt, ok := sl.Elem().Underlying().(*types.Pointer); ok && vmIsNamed(pt.Elem(), "homescript/runtime/value", "Value") {
+							hasArgs = true
+						}
+					}
+				}
+				if hasName && hasArgs {
+					hf = st.Field(i)
+				}
+			}
+		}
+	}
 	if hf == nil {
-		fatalf("anchor unresolved: runtime.Core.hostCall")
+		fatalf("anchor unresolved: the host-call hook field of runtime.Core (func(…, string, …, []*value.Value) …)")
 	}
 	var cands []*vmFn
 	for _, f := range vmFuncs(c, "homescript/runtime") {
@@ -591,7 +674,7 @@ func (x *r2Order) parseHostClause(fn *vmFn, hc *r2HostClause, argsP types.Object
 
 func ruleR2OperandOrder(c *Ctx) []Obligation {
 	roles := vmCompRoles(c)
-	x := &r2Order{c: c, roles: roles, effects: emVMEffects(c)}
+	x := &r2Order{c: c, roles: roles, pushOps: r3emPushOps(c)}
 	hostOp := vmConst(c, "homescript/compiler", "Opcode_HostCall")
 	hostFn, clauses := x.hostClauses()
 	var obs []Obligation
@@ -1430,4 +1513,17 @@ func r2OnlySkips(s ast.Stmt) bool {
 	}
 	br, ok := is.Body.List[len(is.Body.List)-1].(*ast.BranchStmt)
 	return ok && br.Tok == token.CONTINUE
+}
+
+// r2Subst rebuilds a selector chain with its root identifier replaced (args.List → node.Arguments.List).
+func r2Subst(e ast.Expr, root *ast.Ident, by ast.Expr) ast.Expr {
+	switch x := ast.Unparen(e).(type) {
+	case *ast.Ident:
+		if x == root {
+			return by
+		}
+	case *ast.SelectorExpr:
+		return &ast.SelectorExpr{X: r2Subst(x.X, root, by), Sel: x.Sel}
+	}
+	return e
 }
